@@ -781,6 +781,9 @@ impl UdpSocket {
             }
             w.udp[self.sid].sent += 1;
             w.stats.udp_sent += 1;
+            if let Some(cap) = w.udp_capture.as_mut() {
+                cap.push((from, dst, buf.to_vec()));
+            }
             let Some(did) = w.find_udp(&dst) else {
                 rec.fate = 2;
                 w.udp_sends.push(rec);
